@@ -291,6 +291,11 @@ class ExprMixin(ExecBase):
                         return [(st, V(EXC, z3.IntVal(self.exc_id(attr))))]
                     return [(st, V(PYOBJ, PyThing("func", name=attr, module=th.name)))]
                 return [(st, V(PYOBJ, PyThing("modattr", module=th.name, name=attr)))]
+            if th.kind == "class":
+                from . import source as _src
+                consts = _src.module(th.module).class_attr_consts(th.name)
+                if attr in consts:
+                    return [(st, self.py_const(consts[attr]))]      # plain constant class attribute (e.g. OffsetResetStrategy.NONE)
             if th.kind in ("class", "import", "modattr"):
                 return [(st, V(PYOBJ, PyThing("classattr", owner=th, name=attr)))]
             if th.kind == "selfcls":
@@ -765,7 +770,11 @@ class ExprMixin(ExecBase):
 
     def ev_Dict(self, e, st):
         if e.keys:
-            raise Unsupported("non-empty dict literal")
+            # a literal dict is only supported as an opaque payload (e.g. an exception argument)
+            res = []
+            for s, vs in self.ev_list([k for k in e.keys if k is not None] + list(e.values), st):
+                res.append((s, V(PYOBJ, PyThing("pydict", items=vs))))
+            return res
         return [(st, V(PYOBJ, PyThing("emptydict")))]
 
     def ev_Set(self, e, st):
@@ -799,6 +808,7 @@ class ExprMixin(ExecBase):
 
     def ev_Await(self, e, st):
         res = []
+        self.awaited_call = e.value          # a suspending call model (havoc_all) applied to this node *is* the await
         for s, v in self.ev(e.value, st):
             res.extend(self.await_point(s, v, e))
         if isinstance(e.value, ast.Call) and not self.spec:
